@@ -213,9 +213,33 @@ theorem readyOk_takeCall (c : Call) (s : St) (h : ReadyOk s) (hc : c ∈ s.pendi
     exact ⟨hrm.1, hrm.2, hrm.3, hrm.4, hrm.5, hrm.6, hrm.7, hrm.8, hrm.9, hrm.10⟩
   · exact ⟨hrm.1, hrm.2, hrm.3, hrm.4, hrm.5, hrm.6, hrm.7, hrm.8, hrm.9, hrm.10⟩
 
-theorem readyOk_makeProxy (key : Nat) (explicit : Bool) (s : St) (h : ReadyOk s) :
-    ReadyOk (makeProxy .repaired key explicit s) := by
-  obtain ⟨h1, h2, h3, h4, h5, h6, h7, h8, h9, h10⟩ := h
+/-- The part of the invariant about proxies and the registry. -/
+structure ProxOk (s : St) : Prop where
+  proxyIds : (s.proxies.map (·.id)).Nodup
+  proxyLt : ∀ p ∈ s.proxies, p.id < s.nextProxy
+  proxyCbIds : ∀ p ∈ s.proxies, (p.cbs.map (·.id)).Nodup
+  proxyCbLt : ∀ p ∈ s.proxies, ∀ c ∈ p.cbs, c.id < s.nextCb
+  regSlots : ∀ e ∈ s.registry, e.1 = e.2
+  reg : s.registry.map (·.2) = (s.proxies.filter (·.alive)).map (·.id)
+
+theorem ReadyOk.proxOk {s : St} (h : ReadyOk s) : ProxOk s := ⟨h.5, h.6, h.7, h.8, h.9, h.10⟩
+
+/-- ProxOk only looks at the proxies, the registry and the two counters. -/
+theorem proxOk_congr {s s' : St} (h : ProxOk s) (hp : s'.proxies = s.proxies) (hr : s'.registry = s.registry)
+    (hn : s'.nextProxy = s.nextProxy) (hc : s.nextCb ≤ s'.nextCb) : ProxOk s' := by
+  obtain ⟨h5, h6, h7, h8, h9, h10⟩ := h
+  refine ⟨by rw [hp]; exact h5, ?_, ?_, ?_, by rw [hr]; exact h9, by rw [hr, hp]; exact h10⟩
+  · intro p hp'; rw [hp] at hp'; rw [hn]; exact h6 p hp'
+  · intro p hp'; rw [hp] at hp'; exact h7 p hp'
+  · intro p hp' c hcc; rw [hp] at hp'; exact Nat.lt_of_lt_of_le (h8 p hp' c hcc) hc
+
+/-- A new proxy with callbacks `cbs` (ids distinct and below the new callback counter `n`) takes the
+fresh slot `nextProxy`: the registry grows by exactly that slot. -/
+theorem proxOk_makeProxyCbs (key : Nat) (explicit : Bool) (cbs : List Cb) (n : Nat) (s : St) (h : ProxOk s)
+    (hn : s.nextCb ≤ n) (hnd : (cbs.map (·.id)).Nodup) (hlt : ∀ c ∈ cbs, c.id < n) :
+    ProxOk { makeProxyCbs .repaired key explicit cbs s with nextCb := n } ∧
+    (makeProxyCbs .repaired key explicit cbs s).registry = s.registry ++ [(s.nextProxy, s.nextProxy)] := by
+  obtain ⟨h5, h6, h7, h8, h9, h10⟩ := h
   have hfresh : ∀ e ∈ s.registry, e.1 ≠ s.nextProxy := by
     intro e he heq
     have hmem : e.2 ∈ (s.proxies.filter (·.alive)).map (·.id) := h10 ▸ List.mem_map_of_mem he
@@ -223,37 +247,45 @@ theorem readyOk_makeProxy (key : Nat) (explicit : Bool) (s : St) (h : ReadyOk s)
     have := h6 q (List.mem_filter.mp hq).1
     rw [hqe, ← h9 e he, heq] at this
     exact Nat.lt_irrefl _ this
-  have hreg : (makeProxy .repaired key explicit s).registry = s.registry ++ [(s.nextProxy, s.nextProxy)] := by
-    simp only [makeProxy, Variant.repaired]
+  have hreg : (makeProxyCbs .repaired key explicit cbs s).registry = s.registry ++ [(s.nextProxy, s.nextProxy)] := by
+    simp only [makeProxyCbs, Variant.repaired]
     cases explicit <;> simp [regSet_fresh _ _ _ hfresh]
-  refine ⟨h1, h2, h3, h4, ?_, ?_, ?_, ?_, ?_, ?_⟩
-  · simp only [makeProxy, List.map_append, List.map_cons, List.map_nil]
+  refine ⟨⟨?_, ?_, ?_, ?_, ?_, ?_⟩, hreg⟩
+  · simp only [makeProxyCbs, List.map_append, List.map_cons, List.map_nil]
     exact nodup_append_fresh h5 (fun x hx => by
       obtain ⟨q, hq, rfl⟩ := List.mem_map.mp hx
       exact h6 q hq)
   · intro p hp
-    simp only [makeProxy, List.mem_append, List.mem_singleton] at hp ⊢
+    simp only [makeProxyCbs, List.mem_append, List.mem_singleton] at hp ⊢
     rcases hp with hp | rfl
     · exact Nat.lt_succ_of_lt (h6 p hp)
     · exact Nat.lt_succ_self _
   · intro p hp
-    simp only [makeProxy, List.mem_append, List.mem_singleton] at hp
+    simp only [makeProxyCbs, List.mem_append, List.mem_singleton] at hp
     rcases hp with hp | rfl
     · exact h7 p hp
-    · simp
+    · exact hnd
   · intro p hp c hc
-    simp only [makeProxy, List.mem_append, List.mem_singleton] at hp
+    simp only [makeProxyCbs, List.mem_append, List.mem_singleton] at hp
     rcases hp with hp | rfl
-    · exact h8 p hp c hc
-    · simp at hc
+    · exact Nat.lt_of_lt_of_le (h8 p hp c hc) hn
+    · exact hlt c hc
   · intro e he
+    simp only [] at he
     rw [hreg] at he
     simp only [List.mem_append, List.mem_singleton] at he
     rcases he with he | rfl
     · exact h9 e he
     · rfl
-  · rw [hreg]
-    simp [makeProxy, h10, List.filter_append]
+  · simp only []
+    rw [hreg]
+    simp [makeProxyCbs, h10, List.filter_append]
+
+theorem readyOk_makeProxy (key : Nat) (explicit : Bool) (s : St) (h : ReadyOk s) :
+    ReadyOk (makeProxy .repaired key explicit s) := by
+  obtain ⟨p5, p6, p7, p8, p9, p10⟩ :=
+    (proxOk_makeProxyCbs key explicit [] s.nextCb s h.proxOk (Nat.le_refl _) (by simp) (by simp)).1
+  exact ⟨h.1, h.2, h.3, h.4, p5, p6, p7, p8, p9, p10⟩
 
 theorem readyOk_completeCall (c : Call) (ok : Bool) (s : St) (h : ReadyOk s) :
     ReadyOk (completeCall .repaired c ok s) := by
